@@ -169,7 +169,6 @@ struct C27 : Monitor {
         std::string cls = Sim::SplitLabel(st.label)[0];
         // cluster limits hold in every state (also after reorg trimming); usage + the rest after acceptances
         if (st.act.kind != Act::SUBMIT && st.act.kind != Act::PACKAGE) {
-            Step copy_free; (void)copy_free;
             const Snap& s = st.post;
             std::vector<char> done(s.txs.size(), 0);
             for (size_t r = 0; r < s.txs.size(); r++) {
